@@ -10,7 +10,7 @@ from bvm import harness, refcodec as R, node as N, vsched
 PROP = "C05"
 RULE = ("1..4 submitter tasks x 1..30 messages each via send_message/send_messages (40 B .. >256 KiB aggregate) x "
         "partial-write scripts (full, fixed 1/7/50/4096 bytes, random, zero-window episodes) x concurrent inbound traffic "
-        "(answers and DWRs) on/off x schedules (round robin; random walk with line-level preemption); oracle: the bytes "
+        "(answers and DWRs; paced, or made readable at the instant a send() leaves bytes unwritten) on/off x schedules (round robin; random walk with line-level preemption); oracle: the bytes "
         "accepted by the peer side of the socket decode (reference decoder) into every submitted message exactly once and "
         "byte-identical, per-submitter order preserved, plus only whole node-originated base messages; "
         "distinct = (write script, inbound?, submitters, schedule hash)")
@@ -51,6 +51,20 @@ def execute(acc, case):
                 return
             sc.read_emitted()
             sc.net.write_len = write_script(rng, case["write"])
+            if case.get("inbound_on_partial"):
+                # directed window: the moment a send() leaves bytes unwritten, an application answer (which provokes no
+                # reply that would re-arm the writer) becomes readable, so the next selector round reports READ and WRITE together
+                base_script = sc.net.write_len
+                budget = [case["inbound_on_partial"]]
+
+                def script_with_inbound(sock, n):
+                    k = base_script(sock, n)
+                    if k < n and budget[0] > 0 and rng.random() < 0.6:
+                        budget[0] -= 1
+                        sock.rx += R.encode(N.app_answer(9500 + budget[0]))
+                        acc.counters["inbound_injected_on_partial_write"] += 1
+                    return k
+                sc.net.write_len = script_with_inbound
             assoc = sc.node._association
             _flush = assoc.send_message_from_queue
 
@@ -147,7 +161,7 @@ def execute(acc, case):
                         dup[:10], len(written), wit["submitted_len"], case["write"], case["inbound"]), wit)
                 elif missing and queued == 0:
                     key = "outbound-lost"
-                    if case["inbound"]:
+                    if case["inbound"] or case.get("inbound_on_partial"):
                         key = "outbound-lost-with-inbound-traffic"
                     acc.violation(key, "messages %s never written although nothing is queued (write script %s, inbound %s)" % (
                         missing[:10], case["write"], case["inbound"]), wit)
@@ -199,6 +213,12 @@ def plan(tier, seed):
                       "write": rng.choice(writes), "inbound": rng.choice([0, 0, 2, 5]), "strategy": rng.choice(["rr", "rw", "rw"]),
                       "p": rng.choice([0.02, 0.1, 0.3]), "role": rng.choice(["client", "server"]), "batch": rng.random() < 0.3,
                       "transport": rng.choice(["TCP", "TCP", "TCP", "SCTP"])})
+    for i in range(60 if q else 2000):
+        # inbound application answers timed to land right after a partial write
+        cases.append({"seed": seed * 9973 + i, "submitters": rng.choice([1, 2, 3]), "per": rng.choice([1, 2, 3, 5]),
+                      "write": rng.choice(["fixed1", "fixed7", "fixed50", "random", "zero-window"]), "inbound": 0,
+                      "inbound_on_partial": rng.choice([1, 2, 4, 50]), "strategy": rng.choice(["rr", "rw"]), "p": rng.choice([0.02, 0.1]),
+                      "role": rng.choice(["client", "server"]), "batch": rng.random() < 0.3, "transport": rng.choice(["TCP", "TCP", "SCTP"])})
     for i in range(6 if q else 60):
         # aggregate above the 256 KiB batching limit, handed over in one send_messages() call
         cases.append({"seed": seed * 733 + i, "submitters": rng.choice([1, 2]), "per": 8, "big": True, "batch": True,
@@ -217,7 +237,7 @@ def main(tier, seed):
                           ["node-originated CER/CEA/DWR/DWA/DPR/DPA are legal in the outbound stream when they appear whole at message boundaries",
                            "vnet models Linux TCP send(): accepts a prefix or raises BlockingIOError",
                            "quiescence = all queues and buffers empty and two state-machine ticks without change"],
-                          t0, require_counters=("executions", "steps", "partial_sends", "batch_limit_reached"))
+                          t0, require_counters=("executions", "steps", "partial_sends", "batch_limit_reached", "inbound_injected_on_partial_write"))
 
 
 def replay(w):
